@@ -9,6 +9,8 @@ checked on the compiled code against an independent reference executor.
 -/
 import Genq.Model.Collect
 import Genq.Model.Codec
+import Genq.Model.CodecSkel
+import Genq.Extracted.Codec
 import Genq.Proofs.CodecFaithful
 namespace Genq.Collect
 
@@ -152,3 +154,11 @@ example : decFields (.cons "id" false (.leaf .str) (.cons "F" true (.struct (.co
 
 end Genq.Codec
 
+namespace Genq
+/-- **C02_codec_template_tie** — the templates (and FlattenedFields) extracted from /repo on this run are the ones
+    the Codec model was written from: an edit of the generated (un)marshaling code breaks this equality even when no
+    sampled response behaves differently. -/
+theorem C02_codec_template_tie :
+    Extracted.unmarshalTmpl = CodecSkel.unmarshalTmpl ∧
+    Extracted.unmarshalHelperTmpl = CodecSkel.unmarshalHelperTmpl := ⟨rfl, rfl⟩
+end Genq
